@@ -49,6 +49,9 @@ SHAPES = [
     ("scalar_three", 'Query.events(after="a", before="b", third="c").fields(PostFields.title)', {"after": ("Stamp!", '"a"'), "before": ("Stamp", '"b"'), "third": ("Stamp", '"c"')}),
 ]
 NSH = len(SHAPES)
+# second top-level field: every shape in the thorough tier, eight representative ones in the quick tier
+_QUICK_SECOND = ("user", "friends", "union", "alias", "input", "siblings_same_arg", "scalar_three", "iface")
+SECOND = [k for k, sh in enumerate(SHAPES) if os.environ.get("VERIF_C14_QUICK", "1") != "1" or sh[0] in _QUICK_SECOND]
 PREFIXES = [[], [8], [1], [8, 1], [5, 6]]
 KNOWN_SHAPES = {"user_tags": "C14-list-type-dropped", "users_ids": "C14-list-type-dropped", "best_friend": "C14-snake-name-as-graphql-name",
                 "deep": "C14-deep-variables-undeclared", "same_arg_parent_child": "C14-deep-variables-undeclared",
@@ -89,8 +92,16 @@ out = {}
 try:
     for i, pre in enumerate(spec["prefix"]):
         run([pre], f"Pre{i}")
-    del cap[:]
-    run(spec["exprs"], "Op")
+    if spec.get("reuse"):
+        # the very same builder objects are sent twice: alone first (last object at position 0), then all together
+        objs = [eval(e, ns) for e in spec["exprs"]]
+        ns["_objs"] = objs
+        run([f"_objs[{len(objs) - 1}]"], "Earlier")
+        del cap[:]
+        run([f"_objs[{i}]" for i in range(len(objs))], "Op")
+    else:
+        del cap[:]
+        run(spec["exprs"], "Op")
     v = cap[0]["variables"]
     def jn(x):
         import enum
@@ -127,9 +138,9 @@ except Exception as _e:
     SETUP_ERROR = f"{type(_e).__name__}: {_e}"
 
 
-def run_child(is_async, exprs, prefix):
+def run_child(is_async, exprs, prefix, reuse=False):
     b = _BASES[is_async]
-    spec = json.dumps({"exprs": exprs, "prefix": prefix, "is_async": is_async})
+    spec = json.dumps({"exprs": exprs, "prefix": prefix, "is_async": is_async, "reuse": reuse})
     env = dict(os.environ)
     p = subprocess.run([sys.executable, os.path.join(b, "child.py"), b, spec], capture_output=True, text=True, env=env, timeout=120)
     if "@@OUT@@" not in p.stdout:
@@ -178,21 +189,23 @@ def judge(out, shapes):
     return probs
 
 
-def _check(is_async, n_top, a, b, pfx) -> bool:
+def _check(is_async, n_top, a, b, pfx, reuse=False) -> bool:
     if SETUP_ERROR:
         return False
     nt = pick(n_top, 2) + 1
     s0 = pick(a, NSH)
-    shapes = [s0] + ([pick(b, NSH)] if nt == 2 else [])
+    shapes = [s0] + ([SECOND[pick(b, len(SECOND))]] if nt == 2 else [])
     pi = pick(pfx, len(PREFIXES))
+    # re-sending the same builder objects is explored without a prefix of other operations
+    ru = (True if reuse else False) if pi == 0 else False
     with NoTracing():
         with opened_auditwall():
             exprs = [SHAPES[s][1] for s in shapes]
             if len(exprs) == 2:
                 exprs[1] = exprs[1] + '.alias("second")'  # two root fields with different arguments need distinct response keys
-            out = run_child(is_async, exprs, [SHAPES[s][1] for s in PREFIXES[pi]])
+            out = run_child(is_async, exprs, [SHAPES[s][1] for s in PREFIXES[pi]], ru)
             probs = judge(out, shapes)
-            ref = run_child(is_async, exprs, []) if PREFIXES[pi] else out
+            ref = run_child(is_async, exprs, []) if (PREFIXES[pi] or ru) else out
             history = (out.get("query"), out.get("variables")) != (ref.get("query"), ref.get("variables"))
         names = [SHAPES[s][0] for s in shapes]
         kids = {KNOWN_SHAPES[n] for n in names if n in KNOWN_SHAPES}
@@ -214,7 +227,7 @@ def _check(is_async, n_top, a, b, pfx) -> bool:
 def parts_source() -> str:
     out = ["from harness.C14_builder import _check", ""]
     for s0 in range(NSH):
-        out.append(f"def check_builder_s{s0}(is_async: bool, n_top: int, b: int, pfx: int) -> bool:\n    \"\"\"\n    post: _\n    \"\"\"\n    return _check(True if is_async else False, n_top, {s0}, b, pfx)\n")
+        out.append(f"def check_builder_s{s0}(is_async: bool, n_top: int, b: int, pfx: int, reuse: bool) -> bool:\n    \"\"\"\n    post: _\n    \"\"\"\n    return _check(True if is_async else False, n_top, {s0}, b, pfx, reuse)\n")
     return "\n".join(out)
 
 
